@@ -37,9 +37,15 @@
  * New message data begins at \dec.data.off ,
  * encoded data continues at \dec.pos .
  * 
- * Pass \sourcelen = 0 to get current message length
- * on single data element.
- * No data change is performed in this case.
+ * Pass \sourcelen = 0 to decode as far as possible on a
+ * single data element without finishing a message.
+ * Blocks that are complete are decoded in place (the decoded
+ * bytes go into the part of the element that was consumed,
+ * never past the read position); \dec.curr, \dec.data.len and
+ * \dec._ctx advance accordingly, so that a later regular call
+ * continues exactly where this one stopped.
+ * Bytes behind the read position and the decoded bytes in front
+ * of \dec.data.pos + \dec.data.len are not changed.
  * 
  * Pass \source = 0 to get maximum required message size
  * for remaining data length.
@@ -279,9 +285,15 @@ static int _decode
  * New message data begins at \info.content.pos ,
  * encoded data continues at \info.work.pos .
  * 
- * Pass \sourcelen = 0 to get current message length
- * on single data element.
- * No data change is performed in this case.
+ * Pass \sourcelen = 0 to decode as far as possible on a
+ * single data element without finishing a message.
+ * Blocks that are complete are decoded in place (the decoded
+ * bytes go into the part of the element that was consumed,
+ * never past the read position); \dec.curr, \dec.data.len and
+ * \dec._ctx advance accordingly, so that a later regular call
+ * continues exactly where this one stopped.
+ * Bytes behind the read position and the decoded bytes in front
+ * of \dec.data.pos + \dec.data.len are not changed.
  * 
  * Pass \source = 0 to get maximum required message size
  * for remaining data length.
